@@ -5,6 +5,7 @@
   Never defaults a malformed request: answers `bad-op <reason>`.
 -/
 import PDesy.Model.Ser
+import PDesy.Model.Report
 
 open PDesy
 
@@ -25,6 +26,71 @@ def applyPhase (m : Model) (name : String) (working autoFlag : Bool) (rule : Tas
   | "tick" => some { s with time := s.time + 1 }
   | "update" => some { s with live := update m s.time s.live }
   | _ => none
+
+def putIvs (xs : List Iv) : List String := Wire.put xs
+
+/-- pure-function calls: `FN <name> <args…>` -/
+def fnCall (m : Model) : P (List String) := do
+  let name ← tok
+  match name with
+  | "sortTasks" => do
+    let rule : TaskRule ← Wire.get; let xs : List Nat ← Wire.get; let s ← getSt m
+    pure (Wire.put (sortTasks m s.live s.logs rule xs))
+  | "sortWorkers" => do
+    let rule : ResRule ← Wire.get; let nm ← pNat; let target : Option Nat ← Wire.get
+    let xs : List Nat ← Wire.get
+    pure (Wire.put (sortWorkers m rule nm target xs))
+  | "sortFacs" => do
+    let rule : ResRule ← Wire.get; let nm ← pNat; let xs : List Nat ← Wire.get
+    pure (Wire.put (sortFacs m rule nm xs))
+  | "sortWps" => do
+    let rule : WpRule ← Wire.get; let nm ← pNat; let xs : List Nat ← Wire.get; let s ← getSt m
+    pure (Wire.put (sortWps m s.live rule nm xs))
+  | "ganttT" => do
+    let margin ← pRat; let log : List TS ← Wire.get
+    let r := ganttT log margin
+    pure (putIvs r.1 ++ putIvs r.2)
+  | "ganttC" => do
+    let margin ← pRat; let log : List CS ← Wire.get
+    let r := ganttC log margin
+    pure (putIvs r.1 ++ putIvs r.2)
+  | "ganttR" => do
+    let margin ← pRat; let log : List RS ← Wire.get
+    let r := ganttR log margin
+    pure (putIvs r.1 ++ putIvs r.2.1 ++ putIvs r.2.2)
+  | "plotlyT" => do
+    let init ← pRat; let unit ← pRat; let view : Bool ← Wire.get; let margin ← pRat
+    let log : List TS ← Wire.get
+    pure (Wire.put (plotlyRows init unit view (ganttT log margin)))
+  | "plotlyC" => do
+    let init ← pRat; let unit ← pRat; let view : Bool ← Wire.get; let margin ← pRat
+    let log : List CS ← Wire.get
+    pure (Wire.put (plotlyRows init unit view (ganttC log margin)))
+  | "extractT" => do
+    let st : TS ← Wire.get; let times : List Nat ← Wire.get; let s ← getSt m
+    pure (Wire.put (extractIdx m.nT s.logs.tState times st))
+  | "extractC" => do
+    let st : CS ← Wire.get; let times : List Nat ← Wire.get; let s ← getSt m
+    pure (Wire.put (extractIdx m.nC s.logs.cState times st))
+  | "extractW" => do
+    let st : RS ← Wire.get; let times : List Nat ← Wire.get; let ws : List Nat ← Wire.get; let s ← getSt m
+    pure (Wire.put ((extractIdx m.nW s.logs.wState times st).filter (ws.contains ·)))
+  | "extractF" => do
+    let st : RS ← Wire.get; let times : List Nat ← Wire.get; let fs : List Nat ← Wire.get; let s ← getSt m
+    pure (Wire.put ((extractIdx m.nF s.logs.fState times st).filter (fs.contains ·)))
+  | "setLast" => do
+    let last ← pRat; let unit ← pRat; let time ← pNat
+    pure (Wire.put (setLastDatetime last unit time))
+  | "canAdd" => do
+    let t ← pNat; let w : Option Nat ← Wire.get; let f : Option Nat ← Wire.get; let s ← getSt m
+    pure (Wire.put (canAdd m s.live t w f))
+  | "canPut" => do
+    let q ← pNat; let c ← pNat; let s ← getSt m
+    pure (Wire.put (decide (availSpace m s.live q ≥ (m.comp c).size)))
+  | "contrib" => do
+    let t ← pNat; let s ← getSt m
+    pure (Wire.put (contrib m s.live t))
+  | _ => throw s!"unknown function {name}"
 
 def handle (model : Option Model) (line : String) : Option Model × String :=
   let toks := (line.splitOn " ").filter (· ≠ "") |>.toArray
@@ -66,6 +132,13 @@ def handle (model : Option Model) (line : String) : Option Model × String :=
           let a ← Wire.get; let b ← Wire.get; let s ← getSt m; pure (a, b, s)
         match p.run' rest with
         | .ok (a, b, s) => (model, " ".intercalate (putSt m (initProject m a b s)))
+        | .error e => (model, s!"bad-op {e}")
+    | "FN" =>
+      match model with
+      | none => (model, "bad-op no model")
+      | some m =>
+        match (fnCall m).run' rest with
+        | .ok out => (model, " ".intercalate out)
         | .error e => (model, s!"bad-op {e}")
     | _ => (model, s!"bad-op unknown command {cmd}")
   else (model, "bad-op empty line")
